@@ -505,6 +505,58 @@ func main() {
 		}
 		accepted(c, decodeWKB(c, b, 1))
 	})
+	// counts whose product with a small element size wraps around 2^32 to (almost) nothing: a length guard computed
+	// in 32 bits lets exactly these through. For every multiplier m in 2..48 the counts ceil(t 2^32 / m) (+1) satisfy
+	// count*m mod 2^32 < 2m.
+	var wrapping []uint32
+	{
+		seen := map[uint32]bool{}
+		for m := uint64(2); m <= 48; m++ {
+			for t := uint64(1); t < m; t++ {
+				cnt := (t<<32 + m - 1) / m
+				for e := uint64(0); e < 2; e++ {
+					if v := uint32(cnt + e); !seen[v] {
+						seen[v] = true
+						wrapping = append(wrapping, v)
+					}
+				}
+			}
+		}
+	}
+	r.ExploreSharded("wkb-wrapping-counts", fmt.Sprintf("%d counts c with c*m mod 2^32 < 2m for an element size m in 2..48, as the outer count and as the ring / member count of the 7 geometry types x {LE, BE} x {64 zero bytes, three 21-byte point members} behind the count: byte, stream and scanner decoders stay within the allocation budget", len(wrapping)), mc.Opts{MaxDev: -1}, 16, func(c *mc.Ctx) {
+		ci := c.Choose(len(wrapping))
+		if !r.Owned(c, ci) {
+			return
+		}
+		for typ := uint32(1); typ <= 7; typ++ {
+			for _, be := range []bool{false, true} {
+				var order binary.ByteOrder = binary.LittleEndian
+				ob := byte(1)
+				if be {
+					order, ob = binary.BigEndian, 0
+				}
+				u32 := func(v uint32) []byte { b := make([]byte, 4); order.PutUint32(b, v); return b }
+				member := append(append([]byte{ob}, u32(1)...), make([]byte, 16)...)
+				for form := 0; form < 3; form++ {
+					b := append([]byte{ob}, u32(typ)...)
+					switch form {
+					case 0: // outer count wraps, zero bytes behind it
+						b = append(append(b, u32(wrapping[ci])...), make([]byte, 64)...)
+					case 1: // outer count wraps, genuine point members behind it
+						b = append(b, u32(wrapping[ci])...)
+						b = append(append(append(b, member...), member...), member...)
+					case 2: // one genuine outer element whose own count wraps (rings of a polygon, members of a multi)
+						b = append(b, u32(1)...)
+						if typ >= 4 {
+							b = append(append(b, ob), u32(typ-3)...)
+						}
+						b = append(append(b, u32(wrapping[ci])...), make([]byte, 64)...)
+					}
+					accepted(c, decodeWKB(c, b, 1))
+				}
+			}
+		}
+	})
 	// scanner texts: the SQL scanners sniff their input (binary, hex, \x-hex, trailing line ends); every short
 	// string over the bytes those sniffers look at
 	scanAlphabet := []byte{'\\', 'x', '0', '1', '3', 'a', 'F', 'g', ' ', '\n', '\t', '\r', 0x00, 0x01, 0xff}
